@@ -47,7 +47,8 @@ impl World {
                     return None;
                 }
                 if payload_addr(&cc) != payload {
-                    self.fail("O-UPG.alloc", format!("upgrade of a Weak to object {} returned a pointer to another allocation", o));
+                    let other = self.m.borrow().by_payload.get(&payload_addr(&cc)).copied();
+                    self.fail("O-UPG.alloc", format!("upgrade of a Weak to object {} returned a pointer to another allocation ({:#x}, which is object {:?}; expected {:#x})", o, payload_addr(&cc), other, payload));
                     std::mem::forget(cc);
                     return None;
                 }
@@ -166,6 +167,11 @@ impl World {
     }
 
     pub fn run_script(&self, ctx: ScriptCtx, node: Option<&Node>, script: &[Mini]) {
+        if std::thread::panicking() {
+            // a callback reached by unwinding (e.g. the destructor of a value whose creation failed) stays passive:
+            // a second panic would abort the process, and the harness frames are not yet unwound
+            return;
+        }
         for mini in script {
             if self.dead.get() {
                 return;
